@@ -171,6 +171,33 @@ fn entries() -> Vec<Entry> {
             run: |c, x| r2b(dryoc::onetimeauth::OnetimeAuth::compute_and_verify(&a16(x), c.key, &x[16..].to_vec())) },
         Entry { name: "crypto_sign_ed25519_pk_to_curve25519", typed_prefix: 32, auth: |c, _l, _r| Some(c.sign_pk.to_vec()),
             run: |_c, x| { let mut o = [0u8; 32]; r2b(ced::crypto_sign_ed25519_pk_to_curve25519(&mut o, &a32(x))) } },
+        // keys supplied by the other party: public keys (any 32 bytes), and secret keys loaded from storage (any 64 bytes)
+        Entry { name: "crypto_scalarmult (peer point)", typed_prefix: 32, auth: |c, _l, _r| Some(c.spk.to_vec()),
+            run: |c, x| { let mut o = [0u8; 32]; dryoc::classic::crypto_core::crypto_scalarmult(&mut o, &c.rsk, &a32(x)); true } },
+        Entry { name: "crypto_box_beforenm (peer key)", typed_prefix: 32, auth: |c, _l, _r| Some(c.spk.to_vec()),
+            run: |c, x| { let _k = cb::crypto_box_beforenm(&a32(x), &c.rsk); true } },
+        Entry { name: "crypto_box_easy (recipient key)", typed_prefix: 32, auth: |c, _l, _r| Some(c.rpk.to_vec()),
+            run: |c, x| { let m = [5u8; 19]; let mut o = vec![0u8; 19 + 16]; r2b(cb::crypto_box_easy(&mut o, &m, &c.nonce, &a32(x), &c.ssk)) } },
+        Entry { name: "crypto_box_seal (recipient key)", typed_prefix: 32, auth: |c, _l, _r| Some(c.rpk.to_vec()),
+            run: |_c, x| { let m = [5u8; 19]; let mut o = vec![0u8; 19 + 48]; r2b(cb::crypto_box_seal(&mut o, &m, &a32(x))) } },
+        Entry { name: "crypto_kx_client_session_keys (server key)", typed_prefix: 32, auth: |c, _l, _r| Some(c.rpk.to_vec()),
+            run: |c, x| { let (mut rx, mut tx) = ([0u8; 32], [0u8; 32]); r2b(dryoc::classic::crypto_kx::crypto_kx_client_session_keys(&mut rx, &mut tx, &c.spk, &c.ssk, &a32(x))) } },
+        Entry { name: "crypto_kx_server_session_keys (client key)", typed_prefix: 32, auth: |c, _l, _r| Some(c.spk.to_vec()),
+            run: |c, x| { let (mut rx, mut tx) = ([0u8; 32], [0u8; 32]); r2b(dryoc::classic::crypto_kx::crypto_kx_server_session_keys(&mut rx, &mut tx, &c.rpk, &c.rsk, &a32(x))) } },
+        Entry { name: "Session::new_client (server key)", typed_prefix: 32, auth: |c, _l, _r| Some(c.rpk.to_vec()),
+            run: |c, x| { let kp: dryoc::kx::KeyPair = dryoc::keypair::KeyPair { public_key: StackByteArray::from(&c.spk), secret_key: StackByteArray::from(&c.ssk) };
+                          let s: Result<dryoc::kx::Session<StackByteArray<32>>, _> = dryoc::kx::Session::new_client(&kp, &StackByteArray::from(&a32(x))); r2b(s) } },
+        Entry { name: "DryocBox::encrypt (recipient key)", typed_prefix: 32, auth: |c, _l, _r| Some(c.rpk.to_vec()),
+            run: |c, x| r2b(dryoc::dryocbox::VecBox::encrypt_to_vecbox(&[5u8; 19], &StackByteArray::from(&c.nonce), &StackByteArray::from(&a32(x)), &StackByteArray::from(&c.ssk))) },
+        Entry { name: "DryocBox::seal (recipient key)", typed_prefix: 32, auth: |c, _l, _r| Some(c.rpk.to_vec()),
+            run: |_c, x| r2b(dryoc::dryocbox::VecBox::seal_to_vecbox(&[5u8; 19], &StackByteArray::from(&a32(x)))) },
+        Entry { name: "crypto_sign_ed25519_sk_to_curve25519 (stored key)", typed_prefix: 64, auth: |c, _l, _r| Some(c.sign_sk.to_vec()),
+            run: |_c, x| { let mut o = [0u8; 32]; ced::crypto_sign_ed25519_sk_to_curve25519(&mut o, &a64(x)); true } },
+        Entry { name: "crypto_sign_detached (stored key)", typed_prefix: 64, auth: |c, _l, _r| Some(c.sign_sk.to_vec()),
+            run: |_c, x| { let mut sig = [0u8; 64]; r2b(csg::crypto_sign_detached(&mut sig, b"message", &a64(x))) } },
+        Entry { name: "SigningKeyPair::from_secret_key (stored key)", typed_prefix: 64, auth: |c, _l, _r| Some(c.sign_sk.to_vec()),
+            run: |_c, x| { let kp: dryoc::sign::SigningKeyPair<StackByteArray<32>, StackByteArray<64>> = dryoc::sign::SigningKeyPair::from_secret_key(StackByteArray::from(&a64(x)));
+                           r2b(kp.sign_with_defaults(b"message".to_vec())) } },
         Entry { name: "KeyPair::from_slices", typed_prefix: 0, auth: |_c, l, r| if l == 64 { Some(r.bytes(64)) } else { None },
             run: |_c, x| { let h = x.len() / 2; r2b(dryoc::dryocbox::KeyPair::from_slices(&x[..h], &x[h..])) } },
         Entry { name: "SigningKeyPair::from_slices", typed_prefix: 0, auth: |_c, l, r| if l == 96 { Some(r.bytes(96)) } else { None },
